@@ -400,7 +400,7 @@ def run(ctx: C.Ctx):
                        "target(...) lines (captured before block detection)",
                        "non-ASCII identifier characters in header regexes (\\w is modelled for ASCII)",
                        "optional spacing inside a statement: checked by the re-layout oracle on the real transpiler only",
-                       "round trip at the level of parse() (column-0 headers, main loop, def, import filter; guard Layout.top_layout_ok): measured on every generated layout (model parse_top of the rendered layout = skeleton), proved only for snippets handed to _parse_simple_lines (C07_roundtrip_partial)"],
+                       "round trip at the level of parse() (column-0 headers, main loop, def, import filter; guard Layout.top_layout_ok): measured on every generated layout (model parse_top of the rendered layout = skeleton); proved are the round trip for snippets handed to _parse_simple_lines (C07_roundtrip_partial) and, at column 0, that a trailing comment on a line changes nothing of what parse() builds (C07_header_trailing_comment_invisible)"],
         "trusted_base": C.COMMON_TRUSTED + ["harness/gen/dispatch.py + harness/c07_dispatch.py (probe scripts; outcome = exception / identical text / different text)",
                                             "CPython 3.12 tokenize + ast as the reference for Lang/PyLayout.v",
                                             "REDUINO_VERIF hook in parser.py (add-only, commit 3ef1d62)",
